@@ -202,7 +202,7 @@ CHECKS = {
    note="the model is exhaustive only up to the token bound; out-of-bounds accesses, traps and hangs of the renderer are sensed "
         "(sanitizers, alarm) on generated inputs, not proved; one recorded finding: recursion depth is proportional to nesting depth.",
    technique="TLA+ state machine of the tag scanner checked by TLC + trace validation of hook-recorded scanner states; sanitizer-sensed rendering of generated malformed texts",
-   design="6 (C01), appendix E.6"),
+   design="0.2 / 0.4 (as built), 6 (C01)"),
  "C17": dict(
    text="Renders through one shared parsed tag array are specified as interleaved steps (QRender: one step = one expanded tag, reads what "
         "is shared, appends to its own stream); TLC explores every interleaving of 2 renders x 4 steps and 3 x 3 steps (thorough: 2x6, 3x4) "
@@ -217,7 +217,7 @@ CHECKS = {
    note="schedules are exhaustive at the granularity of K steps per render (which yield points separate the steps is sampled per schedule); "
         "races inside a step are left to TSan on free-running threads; templates are sampled.",
    technique="TLA+ interleaving specification; every TLC-generated schedule forced on real threads via a yield hook; trace validation of recorded steps; TSan",
-   design="6 (C17), appendix E.7"),
+   design="0.2 / 0.4 (as built), 6 (C17)"),
  "C16": dict(
    text="The allocation ledger is an explicit TLA+ specification (QMem / QMemDefs: set of live block instances, +b / -b / 0 events, transition "
         "function Apply; ExactlyOnce, NetZero); TLC checks the disciplined client and rejects the double-release and the leaking client. Through "
@@ -229,7 +229,7 @@ CHECKS = {
         "are live after it. The same runs are ASan runs (use after release, double free, foreign free abort the case).",
    note="use after release is sensed (ASan), not modelled; scopes are sampled inputs / histories, not all of them.",
    technique="TLA+ ledger specification; TLC batch oracle folding the ledger transition over allocation traces recorded through the library's accounting seam; ASan",
-   design="6 (C16), appendix E.8"),
+   design="0.2 / 0.4 (as built), 6 (C16)"),
 }
 PENDING = "not yet claimed in this revision: its specification and conformance harness are still being built (DESIGN.md section 6 describes the plan)"
 m = {
